@@ -105,4 +105,14 @@ example :
     let x : String → Int := fun i => if i = "B" then 1 else if i = "c" then 1 else 0
     (encode true t).all (fun r => decide (r.sat x)) = true ∧ evalPt x t = 1 := by decide
 
+/-- **no valid configuration is lost, for models that `errors()` accepts** (reference-free, no compound pre-fixed): the
+    coherence hypothesis of `complete` is what validation gives (C01.validated_coherent) -/
+theorem complete_validated (σ : String → Int) (i b s v ks m)
+    (he : errors (.node i b s v ks m) = []) (hr : C01.RefFree (.node i b s v ks m)) (hb : InB σ (.node i b s v ks m))
+    (hs : SignOk (.node i b s v ks m)) (hf : Free01 (.node i b s v ks m))
+    (htrue : evalPt σ (.node i b s v ks m) = 1) :
+    ∃ x : String → Int, Box x (.node i b s v ks m) ∧ Agrees x σ (.node i b s v ks m) ∧
+      ∀ r ∈ encode true (.node i b s v ks m), r.sat x :=
+  complete σ i b s v ks m (C01.validated_coherent σ _ he hr) hb hs hf htrue
+
 end Puan.C02
